@@ -229,7 +229,7 @@ class UpdateTaskState(Unit):
             wf_status = cases[e.choose(len(cases))]
 
             # ---------------- pre-state
-            sequence, tasks, staged, contexts = [], {}, [], [{"root": 1}, {"inherited": 1}]
+            sequence, tasks, staged, contexts = [], {}, [], [{"root": 1}, {"inherited": 1}, {"other_branch": 1}]
             other_rec = {"id": "x0", "route": 0, "ctxs": {"in": [0]}, "prev": {}, "next": {"t__t0": True},
                          "status": st.SUCCEEDED}
             sequence.append(other_rec)
@@ -269,7 +269,9 @@ class UpdateTaskState(Unit):
                 if tg in COMMANDS:
                     continue
                 if e.branch(S.mk_bool("pre_staged_%s" % tg).z):
-                    ent = {"id": tg, "route": 0, "ctxs": {"in": [0]}, "prev": {"y__t0": 0},
+                    # staged by another branch that arrived earlier carrying a context (2) published AFTER
+                    # the one the reporting task inherited (1): arrival order and publish order differ
+                    ent = {"id": tg, "route": 0, "ctxs": {"in": [0, 2]}, "prev": {"y__t0": 0},
                            "ready": S.mk_bool("pre_ready_%s" % tg)}
                     staged.append(ent)
                     tgt_pre[tg] = ent
@@ -631,6 +633,11 @@ class UpdateTaskState(Unit):
                     # transition of this task, or inherited on both sides) applied again would put an older
                     # value back over a newer one
                     once = len(set(idxs)) == len(idxs)
+                    # ... in arrival order: what this (later) arrival brings goes after everything the entry
+                    # already held, whatever the numbers of the contexts (their publish order) are
+                    if before is not None:
+                        brought = [q for q in mine_in if q != 0 and q not in before]
+                        prefix_ok = prefix_ok and idxs[:len(before) + len(brought)] == list(before) + brought
                     O("C06.uts.ctx_inherited", handed_on and prefix_ok and once and idxs is not cur["ctxs"]["in"])
             O("C06.uts.ctx_inherited", True)
             if retried:
